@@ -11,6 +11,7 @@ CONSTANTS
   Conts = {TRUE, FALSE}
   Forks = {TRUE, FALSE}
   MaxFaults = 1
+  FaultBudgets = {1}
   MaxRestarts = 1
 INIT MCInit
 NEXT Next
